@@ -15,13 +15,27 @@ UNITS = [
               "decrements exactly the right and bottom-left counters, each under the mutex of the row that owns it; "
               "starts a segment only when its counter reached 0, exactly once; both ready => one feedback task for the row below",
          trusted=["ghost model of EbThreads.c", "svt_get_empty_object / svt_post_full_object as logging stubs (C23 contracts)"]),
-    Unit(uid="U24.2.init", prop="C24", harness=H, entry="h_init", mode="plain", defines=["U24_INIT", "MAXW=3", "MAXH=2"], backend="cadical", thorough_defines=["U24_INIT", "MAXW=4", "MAXH=3"], thorough_unwind=45,
+    Unit(uid="U24.2.init", prop="C24", harness=H, entry="h_init", mode="plain", defines=["U24_INIT", "MAXW=3", "MAXH=2"], backend="cadical",
          functions=["enc_dec_segments_init"], min_obligations=100, cover_functions=[], unwind=24, timeout=900, mem_gb=20, trusted=["byte-loop model of memset (CBMC built-in is wrong for symbolic lengths)"],
-         kind="bounded", bound="pictures of 2..3 x 1..2 superblocks, every requested grid", quick_bound="W 2..3, H 1..2", thorough_bound="W 2..4, H 1..3",
+         kind="bounded", bound="fully symbolic geometry: pictures of 1..3 x 1..2 superblocks, every requested grid",
          what="tables of the real enc_dec_segments_init against their set definitions: counts add up to W*H, row start / "
               "end = segments of the row's first / last SB, starting segment non-empty, dependency counter = number of "
               "non-empty predecessors"),
 ]
+# enumerated family: one unit per picture width; heights, requested segment columns and rows enumerated with constant
+# loop bounds inside the harness (h_init_enum), witness row / segment symbolic
+for _w in range(1, 13):
+    _q = _w <= 8
+    UNITS.append(Unit(
+        uid="U24.2.init_w%d" % _w, prop="C24", harness=H, entry="h_init_enum", mode="plain", backend="cadical",
+        defines=["U24_INIT", "MAXW=%d" % _w, "WLO=%d" % _w, "WHI=%d" % _w] + (["MAXH=6", "MAXSC=4", "MAXSR=4"] if _q else ["MAXH=8", "MAXSC=6", "MAXSR=6"]),
+        thorough_defines=["U24_INIT", "MAXW=%d" % _w, "WLO=%d" % _w, "WHI=%d" % _w, "MAXH=8", "MAXSC=6", "MAXSR=6"],
+        tier="quick" if _q else "thorough",
+        functions=["enc_dec_segments_init"], min_obligations=100, cover_functions=[], unwind=160, timeout=1500 if _q else 3000, mem_gb=16,
+        trusted=["byte-loop model of memset (CBMC built-in is wrong for symbolic lengths)"], kind="bounded",
+        bound="picture width %d SB; heights 1..6 (thorough 1..8), requested segment grid 1..4 x 1..4 (thorough 1..6 x 1..6), "
+              "every combination, constant loop bounds" % _w,
+        what="same table obligations as U24.2.init for every geometry of the box (enumerated, not symbolic)"))
 META = {"C24": {
     "level": "proof",
     "explanation": "Geometric lemmas on the real index macros for all picture sizes and grids; the assignment step as an "
@@ -30,6 +44,6 @@ META = {"C24": {
                    "(acyclic by the lemmas, counters = in-degree by U24.2, each completion decrements each successor "
                    "once by U24.3) that is written here but not machine-checked.",
     "not_covered": ["the SB enumeration loop inside enc_dec_kernel (inline in the kernel)",
-                    "completion / liveness as a machine-checked statement", "pictures one SB wide (see DESIGN: the "
-                    "scheme's known gap reported by a seeding agent, not yet reproduced by a unit)"],
+                    "completion / liveness as a machine-checked statement (its necessary condition 'every segment but the "
+                    "first has a predecessor' is an obligation of U24.2 and found the one-SB-wide hang, fixed in 36c4686)"],
 }}
